@@ -76,10 +76,14 @@ func (d *EMAThroughputSampler) GetSampleRate(trace *types.Trace) (rate uint, kee
 		d.Logger.Debug().Logf("trace key hit max length of %d, truncating", maxKeyLength)
 	}
 	count := int(trace.DescendantCount())
-	rate = uint(d.dynsampler.GetSampleRateMulti(key, count))
-	if rate < 1 { // protect against dynsampler being broken even though it shouldn't be
-		rate = 1
+	// protect against the dynsampler returning a rate below 1 (it does for a
+	// negative configured rate, which validation accepts); the check has to
+	// happen before the conversion to uint, which would hide a negative value
+	dynRate := d.dynsampler.GetSampleRateMulti(key, count)
+	if dynRate < 1 {
+		dynRate = 1
 	}
+	rate = uint(dynRate)
 	shouldKeep := rand.Intn(int(rate)) == 0
 	d.Logger.Debug().WithFields(map[string]interface{}{
 		"sample_key":  key,
